@@ -10,7 +10,7 @@ use serde_json::json;
 pub static SPEC: PropSpec = PropSpec {
     id: "C10",
     level: "exploration",
-    rule: "cases: (type, operator, operand pair) evaluations. int8 / uint8: ALL 65,536 operand pairs x {+ - * / < <= > >= == !=} and all 256 operands of unary minus with operands held in variables (quick: + - / < on int8 and * <= on uint8; thorough: everything); all eight integer types: boundary x boundary and random pairs as variables and as literals (constant path); compound expressions (prefix minus against each binary operator on either side, each pair of binary operators in both nestings, random trees) printed with minimal parentheses at boundary operand triples of all eight types; literal spellings 0..300 and the boundary neighbourhoods of every type in suffix / negated / pattern position with out-of-range spellings required to be rejected; division by zero must fail at run time (also when the quotient is unused, also MIN / -1 wraps); float32 / float64 arithmetic compared against correctly rounded results through ==; float32 literals next to rounding midpoints; *_to_string must be the decimal numeral (integers) / a readable numeral of the same value (floats). non-trivial = operand pair other than (0|1, 0|1); distinct by (type, op, pair)",
+    rule: "cases: (type, operator, operand pair) evaluations. int8 / uint8: ALL 65,536 operand pairs x {+ - * / < <= > >= == !=} and all 256 operands of unary minus with operands held in variables (quick: + - / < on int8 and * <= on uint8; thorough: everything); all eight integer types: boundary x boundary and random pairs as variables and as literals (constant path); compound expressions (prefix minus against each binary operator on either side, each pair of binary operators in both nestings, random trees) printed with minimal parentheses at boundary operand triples of all eight types; literal spellings 0..300 and the boundary neighbourhoods of every type in suffix / negated / pattern position with out-of-range spellings required to be rejected; division by zero must fail at run time (also when the quotient is unused, also MIN / -1 wraps); float32 / float64 arithmetic compared against correctly rounded results through == (operands in variables, and whole / fractional literal operands written directly, where the emitted Go is a constant expression); negative zero; float32 literals next to rounding midpoints; *_to_string must be the decimal numeral (integers) / a readable numeral of the same value (floats). non-trivial = operand pair other than (0|1, 0|1); distinct by (type, op, pair)",
     eval_counter: "evaluations",
     assumptions: &[
         "gomini implements Go's sized integer and float32/float64 arithmetic and constant conversion (calibrated by its own positive controls)",
@@ -21,7 +21,7 @@ pub static SPEC: PropSpec = PropSpec {
     case_cpu_s: 120,
     shards: 0,
     run,
-    floors: &[("evaluations", 200_000, 1_500_000), ("programs_run", 40, 300), ("out_of_range_literals_rejected", 30, 60), ("div_zero_failures_checked", 30, 30), ("float_checks", 500, 5_000), ("compound_evaluations", 30_000, 400_000), ("out_of_range_positions_rejected", 200, 200)],
+    floors: &[("evaluations", 200_000, 1_500_000), ("programs_run", 40, 300), ("out_of_range_literals_rejected", 30, 60), ("div_zero_failures_checked", 30, 30), ("float_checks", 500, 5_000), ("compound_evaluations", 30_000, 400_000), ("out_of_range_positions_rejected", 200, 200), ("float_literal_operand_checks", 800, 800)],
     finish: None,
 };
 
@@ -698,6 +698,82 @@ fn float_arith(case: &mut Case, rng: &mut Rng, is32: bool, n: usize) {
     }
 }
 
+/// float arithmetic written directly on LITERAL operands (the emitted Go is a constant expression there), with whole
+/// and fractional values: `1.0 / 2.0` is 0.5; plus negative zero
+fn float_literal_arith(case: &mut Case, is32: bool) {
+    let vals: [f64; 12] = [1.0, 2.0, 7.0, 0.5, 3.0, 10.0, 0.25, 100.0, 1.5, 4.0, 0.125, 9.0];
+    let mut lines = Vec::new();
+    let mut descr = Vec::new();
+    let spell = |v: f64| -> Option<String> { if is32 { f32_src(v as f32) } else { f64_src(v) } };
+    for a in vals {
+        for b in vals {
+            for op in ["+", "-", "*", "/"] {
+                let r = if is32 {
+                    let (x, y) = (a as f32, b as f32);
+                    (match op {
+                        "+" => x + y,
+                        "-" => x - y,
+                        "*" => x * y,
+                        _ => x / y,
+                    }) as f64
+                } else {
+                    match op {
+                        "+" => a + b,
+                        "-" => a - b,
+                        "*" => a * b,
+                        _ => a / b,
+                    }
+                };
+                if r < 0.0 {
+                    continue;
+                }
+                let (Some(sa), Some(sb), Some(sr)) = (spell(a), spell(b), spell(r)) else { continue };
+                // directly in a comparison, and through a let
+                lines.push(format!("    let _ = string_println(bool_to_string({} {} {} == {}));", sa, op, sb, sr));
+                descr.push(format!("{} {} {} == {} (literal operands)", sa, op, sb, sr));
+                if (a as i64 + b as i64) % 3 == 0 {
+                    let k = lines.len();
+                    lines.push(format!("    let r{k} = {} {} {};\n    let _ = string_println(bool_to_string(r{k} == {}));", sa, op, sb, sr, k = k));
+                    descr.push(format!("let r = {} {} {}; r == {}", sa, op, sb, sr));
+                }
+            }
+        }
+    }
+    // three literals: grouping follows the source
+    for (e, r) in [("7.0 / 2.0 * 2.0", 7.0), ("1.0 / 4.0 + 1.0 / 4.0", 0.5), ("3.0 / 2.0 / 2.0", 0.75), ("10.0 - 1.0 / 2.0", 9.5)] {
+        let (e, r) = if is32 { (e.replace(".0", ".0f32"), f32_src(r as f32).unwrap()) } else { (e.to_string(), f64_src(r).unwrap()) };
+        lines.push(format!("    let _ = string_println(bool_to_string({} == {}));", e, r));
+        descr.push(format!("{} == {}", e, r));
+    }
+    let ty = if is32 { "float32" } else { "float64" };
+    for (ci, chunk) in lines.chunks(300).enumerate() {
+        let src = format!("fn main() -> unit {{\n{}\n    ()\n}}\n", chunk.join("\n"));
+        let label = format!("float-literals/{}/{}", ty, ci);
+        let Some((out, _term, _)) = run_program(case, &label, &src, 10_000_000) else { continue };
+        let expected: Vec<String> = chunk.iter().map(|_| "true".to_string()).collect();
+        let base = ci * 300;
+        compare_lines(case, &label, &src, &expected, &out, &|i| descr[base + i].clone());
+        case.count("evaluations", chunk.len() as u64);
+        case.count("float_checks", chunk.len() as u64);
+        case.count("float_literal_operand_checks", chunk.len() as u64);
+    }
+    // negative zero: `-0.0` is the IEEE negative zero (1.0 / -0.0 is -inf, below every number)
+    let z = if is32 { "0.0f32" } else { "0.0" };
+    let one = if is32 { "1.0f32" } else { "1.0" };
+    let src = format!("fn main() -> unit {{\n    let n = -{z};\n    let r = {one} / n;\n    let _ = string_println(bool_to_string(r < {z}));\n    ()\n}}\n", z = z, one = one);
+    let label = format!("negative-zero/{}", ty);
+    if let Some((out, _term, _)) = run_program(case, &label, &src, 100_000) {
+        case.count("evaluations", 1);
+        if out != "true\n" {
+            case.violation(
+                format!("C10:negative-zero-literal:{}", ty),
+                format!("`-{}` is not the negative zero: 1 / -0 should be -inf (below zero), the program prints {:?}", z, out.trim()),
+                json!({"label": label, "source": src}),
+            );
+        }
+    }
+}
+
 fn op_index(op: &str) -> i32 {
     match op {
         "+" => 0,
@@ -866,6 +942,9 @@ fn run(ctx: &mut Ctx) {
             let mut rng = Rng::keyed(seed, "c10-float", is32 as u64, 0);
             float_arith(c, &mut rng, is32, nfl)
         }));
+    }
+    for is32 in [true, false] {
+        jobs.push(Box::new(move |c| float_literal_arith(c, is32)));
     }
     let nmid = if thorough { 600 } else { 80 };
     jobs.push(Box::new(move |c| {
